@@ -77,6 +77,9 @@ class Google:
             if a == "F5":
                 text = [f"{desc} plain", f"d{i}", f"d{i} (see below) - really"][v % 3]
                 return {"text": pad + text, "name": None, "type": None, "desc": text, "pre": None}
+            if a == "F7":
+                gap = (" ", "   ")[v % 2]
+                return {"text": f"{pad}{name}{gap}: {desc}", "name": name, "type": None, "desc": desc, "pre": name + gap}
             if a == "BL":
                 return {"text": f"{pad}<BLANKLINE>", "name": None, "type": None, "desc": "<BLANKLINE>", "pre": None}
             if a == "F6":
@@ -125,6 +128,8 @@ class Google:
                 form = "F4"
             elif re.fullmatch(r"\w+", pre) and nm == pre and ty is None:
                 form = "F1"
+            elif re.fullmatch(r"\w+ +", pre) and nm == pre.strip() and ty is None:
+                form = "F7"
             elif re.fullmatch(r"\w+ \(.+\)", pre) and nm and ty and " " in pre:
                 form = "F2"
             elif re.fullmatch(r"\(\S+\)", pre) and nm is None and ty:
@@ -169,7 +174,7 @@ class Google:
             return f"parser gives {[s.kind.value for s in secs]}"
         el = secs[1].value[0]
         a = ln["a"]
-        want_name = {"F1": p.get("name"), "F2": p.get("name"), "F3": "", "F4": "", "F5": "", "BL": "", "F6": p.get("name")}[a]
+        want_name = {"F1": p.get("name"), "F2": p.get("name"), "F3": "", "F4": "", "F5": "", "BL": "", "F6": p.get("name"), "F7": p.get("name")}[a]
         typed = a in ("F2", "F3", "F6")
         desc = p["desc"] if a not in ("F5", "BL") else text.strip()
         if el.name != want_name or (typed != (el.annotation is not None and p.get("type") is not None and p["type"] in str(el.annotation).replace(", ", ","))) or el.description != desc:
@@ -184,7 +189,7 @@ class Google:
         out = [rec("blank", 0, "e"), rec("blank", 0, "w"), rec("text", 0, "plain"), rec("text", 0, "colon"), rec("adm", 0, "-"), rec("adm", 0, "-", True),
                rec("fence", 0, "-"), rec("fence", 4, "-"), rec("prompt", 4, "-"), rec("prompt", 4, "flags")]
         out += [rec("sec", 0, k, t) for k in sorted(self.keywords) for t in (False, True)]
-        out += [rec("item", 4, f) for f in ("F1", "F2", "F3", "F4", "F5", "F6", "BL")]
+        out += [rec("item", 4, f) for f in ("F1", "F2", "F3", "F4", "F5", "F6", "F7", "BL")]
         out += [rec("item", 6, "F1"), rec("item", 6, "F5"), rec("item", 8, "F1"), rec("item", 8, "F4"), rec("item", 8, "F5")]
         return out
 
@@ -287,11 +292,11 @@ class Google:
             out.append(rec)
         if flags and flags.get("propsum") and out and out[0]["kind"] == "text":
             # returns_type_in_property_summary: value.lstrip(), then the text before the first colon of the first line is cut off
-            ls = list(out[0]["lines"])
-            while ls and not ls[0]:
+            ls = [parts[i]["text"] for i in case_sections[0]["tl"]]       # the raw lines (a doctest comment contains the colon too)
+            while ls and not ls[0].strip():
                 ls.pop(0)
             if ls and ":" in ls[0]:
-                ls[0] = ls[0].split(":", 1)[1].strip()
+                ls[0] = ls[0].split(":", 1)[1]
             out[0]["lines"] = norm_list(ls)
         return out
 
@@ -336,7 +341,7 @@ class Google:
                         soft = soft or f"section {j} item {m} annotation {a!r}, spec says the written one ({p.get('type')!r})"
                     if an == "prev" and (a is None or str(a) != str(prev_ann)):
                         soft = soft or f"section {j} item {m} annotation {a!r}, spec says left over from the previous item ({prev_ann!r})"
-                    if an == "e" and a != "":
+                    if an == "e" and (a is None or str(a).strip() != ""):
                         soft = soft or f"section {j} item {m} annotation {a!r}, spec says empty string"
                     prev_ann = a
         return None, soft
